@@ -12,6 +12,7 @@ import (
 	"path/filepath"
 	"runtime"
 	"sort"
+	"strconv"
 	"strings"
 	"sync"
 	"sync/atomic"
@@ -456,6 +457,159 @@ func runTools(c *harness.Ctx) harness.Result {
 	return res
 }
 
+// 7. the very first requests of a fresh process arrive at the same time (lazily built state such
+// as templates is initialised under contention)
+func runFirstWeb(c *harness.Ctx) harness.Result {
+	res := harness.Result{NonTrivial: true, Sig: fmt.Sprint("firstweb", c.Index)}
+	cmd := exec.Command(harness.Self(), "child", "c20first", c.Tmp, fmt.Sprint(c.Rng.Int63()))
+	var out, errb strings.Builder
+	cmd.Stdout, cmd.Stderr = &out, &errb
+	err := cmd.Run()
+	c.Stat("fresh_processes", 1)
+	for _, l := range strings.Split(out.String(), "\n") {
+		if strings.HasPrefix(l, "requests ") {
+			var n, ov int
+			fmt.Sscanf(l, "requests %d overlaps %d", &n, &ov)
+			c.Stat("first_requests", int64(n))
+			c.Stat("first_request_overlaps", int64(ov))
+		}
+		if strings.HasPrefix(l, "BAD ") {
+			res.Verdict, res.Detail = harness.Violated, "first requests of a fresh process, sent concurrently: "+strings.TrimPrefix(l, "BAD ")
+		}
+	}
+	if err != nil && res.Verdict != harness.Violated {
+		tail := errb.String()
+		if strings.Contains(tail, "panic:") || strings.Contains(tail, "fatal error:") {
+			res.Verdict, res.Detail = harness.Violated, "fresh process serving concurrent first requests died:\n"+harness.Trunc(tail, 3000)
+		} else if !strings.Contains(tail, "DATA RACE") { // race reports are collected from the log files
+			res.Verdict, res.Detail = harness.Inconclusive, fmt.Sprintf("child failed: %v\n%s", err, harness.Trunc(tail, 1500))
+		}
+	}
+	return res
+}
+
+func firstWebChild(args []string) int {
+	seed, _ := strconv.ParseInt(args[1], 10, 64)
+	r := rand.New(rand.NewSource(seed))
+	drv.IsolateEnv(args[0])
+	p := c10.GenProfile(r)
+	web, err := drv.StartWeb(&drv.MapFetcher{Profiles: map[string]*profile.Profile{"p": p}}, []string{"p"}, nil, nil, nil)
+	if err != nil {
+		fmt.Println("requests 0 overlaps 0")
+		return 0
+	}
+	defer web.Close()
+	urls := []string{"/top", "/flamegraph", "/source?f=a", "/", "/peek?f=main", "/top?g=lines", "/disasm?f=a", "/flamegraph?g=files"}
+	n := 4 + r.Intn(8)
+	type resp struct {
+		u, body string
+		code    int
+		pn      string
+	}
+	got := make([]resp, n)
+	var st stamps
+	var wg sync.WaitGroup
+	gate := make(chan struct{})
+	for g := 0; g < n; g++ {
+		wg.Add(1)
+		u := urls[r.Intn(len(urls))]
+		go func(g int, u string) {
+			defer wg.Done()
+			<-gate
+			st.do(func() {
+				code, body, pn := web.Get(u)
+				got[g] = resp{u, body, code, pn}
+			})
+		}(g, u)
+	}
+	close(gate)
+	wg.Wait()
+	fmt.Printf("requests %d overlaps %d\n", n, st.overlaps())
+	// the same requests one at a time afterwards
+	for _, x := range got {
+		code, body, pn := web.Get(x.u)
+		switch {
+		case x.pn != "" || pn != "":
+			fmt.Printf("BAD GET %s panicked: %s %s\n", x.u, x.pn, pn)
+		case code != x.code || body != x.body:
+			fmt.Printf("BAD GET %s answered %d (%d bytes) when it was among the first concurrent requests and %d (%d bytes) when repeated alone: %q\n", x.u, x.code, len(x.body), code, len(body), harness.Trunc(x.body, 200))
+		}
+	}
+	return 0
+}
+
+// 8. GNU addr2line backend: one shared addr2line process whose answer to some addresses is a
+// diagnostic line; every lookup must return (answer, nothing, or error) and later lookups must
+// not block
+func runToolsA2L(c *harness.Ctx) harness.Result {
+	r := c.Rng
+	tools := filepath.Join(c.Tmp, "tools")
+	os.MkdirAll(tools, 0o755)
+	script := "#!/bin/sh\nwhile read a; do\n  case \"$a\" in\n    ffffffffffffffff) printf '0x%s\\n??\\n??:0\\n' \"$a\" ;;\n    *8) printf 'addr2line: DWARF error: could not find variable specification\\n' ;;\n    *) printf '0x%s\\ng_%s\\nf.c:1\\n' \"$a\" \"$a\" ;;\n  esac\ndone\n"
+	os.WriteFile(filepath.Join(tools, "addr2line"), []byte(script), 0o755)
+	path := filepath.Join(c.Tmp, "img")
+	if err := writeTinyELF(path); err != nil {
+		return harness.Result{Verdict: harness.Inconclusive, Detail: err.Error()}
+	}
+	// pprof falls back to an llvm-symbolizer found on PATH: keep the interposed tool the only one
+	oldPath := os.Getenv("PATH")
+	os.Setenv("PATH", tools)
+	defer os.Setenv("PATH", oldPath)
+	bu := &binutils.Binutils{}
+	bu.SetTools("llvm-symbolizer:/nonexistent,addr2line:" + tools + ",nm:/nonexistent,objdump:/nonexistent")
+	f, err := bu.Open(path, 0x400000, 0x403000, 0, "")
+	if err != nil {
+		return harness.Violation("Open: %v", err)
+	}
+	defer f.Close()
+	res := harness.Result{NonTrivial: true, Sig: fmt.Sprint("tools-a2l", c.Index)}
+	var wg sync.WaitGroup
+	var bad atomic.Value
+	var st stamps
+	var answered, empty, failed atomic.Int64
+	n := 4 + r.Intn(6)
+	// exactly one lookup of the case is answered with a diagnostic (pprof's reader of the tool's
+	// output is not expected to resynchronise after a second one)
+	diagG, diagK := r.Intn(n), r.Intn(8)
+	for g := 0; g < n; g++ {
+		wg.Add(1)
+		go func(g int) {
+			defer wg.Done()
+			for k := 0; k < 8; k++ {
+				addr := uint64(0x400000 + g*0x100 + k*16 + 1)
+				if g == diagG && k == diagK {
+					addr = uint64(0x400000 + g*0x100 + k*16 + 8) // answered with a diagnostic
+				}
+				st.do(func() {
+					fr, err := f.SourceLine(addr)
+					want := fmt.Sprintf("g_%x", addr)
+					switch {
+					case err != nil:
+						failed.Add(1)
+					case len(fr) == 0:
+						empty.Add(1)
+					case len(fr) == 1 && fr[0].Func == want:
+						answered.Add(1)
+					default:
+						bad.Store(fmt.Sprintf("concurrent SourceLine(%#x) through addr2line returned %v: the answer does not pair with the question (%s)", addr, fr, want))
+					}
+				})
+			}
+		}(g)
+	}
+	wg.Wait() // a lookup that never returns is reported by the harness (hang rule) with the goroutine dump
+	c.Stat("a2l_requests", int64(len(st.spans)))
+	c.Stat("a2l_overlaps", int64(st.overlaps()))
+	c.Stat("a2l_answered", answered.Load())
+	c.Stat("a2l_empty", empty.Load())
+	c.Stat("a2l_errors", failed.Load())
+	if v := bad.Load(); v != nil {
+		res.Verdict, res.Detail = harness.Violated, v.(string)
+	}
+	res.Sample = map[string]any{"goroutines": n, "backend": "interposed addr2line with diagnostic answers"}
+	return res
+}
+
 func writeTinyELF(path string) error {
 	// ELF64 header + one PT_LOAD (R+X) at 0x400000, little endian
 	h := make([]byte, 64+56)
@@ -497,11 +651,12 @@ var _ = time.Now
 
 func init() {
 	harness.Children["c20temp"] = tempChild
+	harness.Children["c20first"] = firstWebChild
 	harness.Register(&harness.Check{
 		ID:          "C20",
 		Level:       "exploration",
 		Race:        true,
-		Rule:        "all workers are built with -race (GORACE halt_on_error=0, reports collected from the log files and de-duplicated by the functions on top of both stacks; any report is a violation). Workloads, each compared with its sequential twin: codec (8-32 goroutines x Write / WriteUncompressed / Copy / String on one profile, plus a merged profile and its compaction serialized at the same time; bytes must equal the sequential ones), web (4-11 clients mixing /top /peek /flamegraph /source /disasm /download / with /saveconfig and /deleteconfig against one server while 2 writers flip an option through SetVariableDefault; every response must equal a sequential response for one of the option values written, Config menu excluded), fetch (2-300 sources fetched in parallel through the gated fetcher with a shared Binutils object tool; two completion orders must agree), temp (32 goroutines x 4 and 6 processes x 12 temporary files in one directory: names distinct, contents intact), tools (6-11 goroutines x 8 SourceLine calls on one object file behind an interposed symbolizer that echoes its question, while SetTools / SetFastSymbolization / Open race). Every workload records call/return stamps from one clock and reports the number of really overlapping operation pairs. non-trivial = every case; distinct = case",
+		Rule:        "all workers are built with -race (GORACE halt_on_error=0, reports collected from the log files and de-duplicated by the functions on top of both stacks; any report is a violation). Workloads, each compared with its sequential twin: codec (8-32 goroutines x Write / WriteUncompressed / Copy / String on one profile, plus a merged profile and its compaction serialized at the same time; bytes must equal the sequential ones), web (4-11 clients mixing /top /peek /flamegraph /source /disasm /download / with /saveconfig and /deleteconfig against one server while 2 writers flip an option through SetVariableDefault; every response must equal a sequential response for one of the option values written, Config menu excluded), fetch (2-300 sources fetched in parallel through the gated fetcher with a shared Binutils object tool; two completion orders must agree), temp (32 goroutines x 4 and 6 processes x 12 temporary files in one directory: names distinct, contents intact), tools (6-11 goroutines x 8 SourceLine calls on one object file behind an interposed symbolizer that echoes its question, while SetTools / SetFastSymbolization / Open race), firstweb (a fresh child process whose first 4-11 web requests are released together by a barrier, each compared with the same request repeated alone), tools-addr2line (4-9 goroutines x 8 SourceLine calls through one interposed GNU-addr2line process that answers one of the lookups with a diagnostic line: every call returns an answer that pairs with its question, nothing, or an error). A case that does not finish within 2 min in 3 of 3 fresh worker processes is a deadlock (violation, goroutine dump attached). Every workload records call/return stamps from one clock and reports the number of really overlapping operation pairs. non-trivial = every case; distinct = case",
 		Assumptions: []string{"the race detector only sees accesses that happen in these runs", "sharing one fileNM object between goroutines is not something pprof does and is not exercised"},
 		Parts: []harness.Part{
 			{Name: "codec", Quick: 60, Thor: 3000, Run: runCodec},
@@ -509,7 +664,11 @@ func init() {
 			{Name: "fetch", Quick: 20, Thor: 600, Run: runFetch},
 			{Name: "temp", Quick: 10, Thor: 300, Run: runTemp},
 			{Name: "tools", Quick: 20, Thor: 600, Run: runTools},
+			{Name: "firstweb", Quick: 16, Thor: 400, Run: runFirstWeb},
+			{Name: "tools-addr2line", Quick: 16, Thor: 400, Run: runToolsA2L},
 		},
+		CaseTimeout:   2 * time.Minute,
+		HangTries:     3,
 		Workers:       8,
 		MinNonTrivial: func(string) int { return 100 },
 		Finish: func(tier string, st map[string]int64) string {
